@@ -13,8 +13,6 @@ import (
 	"io"
 	"os"
 	"os/exec"
-	"runtime/pprof"
-	"sort"
 	"strings"
 	"sync"
 
@@ -79,7 +77,9 @@ func runHelper(q helperReq, gomaxprocs int) (helperRsp, error) {
 	self, _ := os.Executable()
 	d, _ := json.Marshal(q)
 	cmd := exec.Command(self)
-	cmd.Env = append(os.Environ(), "C41_HELPER="+string(d), fmt.Sprintf("GOMAXPROCS=%d", gomaxprocs))
+	// the race runtime sleeps 1 s at exit by default; the helper is single-threaded
+	cmd.Env = append(os.Environ(), "C41_HELPER="+string(d), fmt.Sprintf("GOMAXPROCS=%d", gomaxprocs),
+		strings.TrimSpace(os.Getenv("GORACE")+" atexit_sleep_ms=0"))
 	var out, errb bytes.Buffer
 	cmd.Stdout = &out
 	cmd.Stderr = &errb
@@ -100,11 +100,6 @@ func main() {
 		helperMain(h)
 		return
 	}
-	if pf := os.Getenv("C41_PROF"); pf != "" {
-		f, _ := os.Create(pf)
-		pprof.StartCPUProfile(f)
-		defer pprof.StopCPUProfile()
-	}
 	kit.Main(kit.Prop{
 		ID:    "C41",
 		Level: "exploration",
@@ -120,6 +115,15 @@ func main() {
 		},
 		Plan:        plan,
 		Run:         run,
+		RaceKey: func(rep string) (string, bool) {
+			// Unsynchronised first use: GetIDGenerator reads idGeneratorInstantiated/idGenerator without the
+			// mutex; the only akita frames are GetIDGenerator itself (the generator object published that way
+			// is then raced on by the caller's atomic add).
+			if sig := kit.RaceSignature(rep); sig == "timing.GetIDGenerator" || sig == "timing.GetIDGenerator|timing.GetIDGenerator" {
+				return "idgen/race-lazy-first-use", true
+			}
+			return "race:" + kit.RaceSignature(rep), true
+		},
 		MustObserve: []string{"ids_checked", "conc_cases_with_interleaving", "ckpt_restores_same_process", "ckpt_restores_fresh_process", "repro_process_pairs", "lazy_first_use_cases"},
 	})
 }
@@ -179,13 +183,23 @@ func run(b kit.Batch, r *kit.R) {
 	}
 }
 
-// draw starts the goroutines described by shares and returns what each drew.
+// arena is reused by every case of the process: under the race detector fresh
+// memory is what costs time (shadow pages), not the atomic add.
+var arena []uint64
+
+// draw starts the goroutines described by shares and returns what each drew
+// (sub-slices of the arena, valid until the next draw).
 func draw(shares []int, stagger bool, cached bool) [][]uint64 {
+	if t := sum(shares); t > len(arena) {
+		arena = make([]uint64, t+t/2)
+	}
 	out := make([][]uint64, len(shares))
 	var wg sync.WaitGroup
 	start := make(chan struct{})
+	off := 0
 	for g, n := range shares {
-		out[g] = make([]uint64, n)
+		out[g] = arena[off : off+n : off+n]
+		off += n
 		wg.Add(1)
 		go func(g, n int) {
 			defer wg.Done()
@@ -210,8 +224,44 @@ func draw(shares []int, stagger bool, cached bool) [][]uint64 {
 	return out
 }
 
+// idSet is an exact set of uint64: a bitmap for the dense low range, a map above it.
+type idSet struct {
+	bits []uint64
+	big  map[uint64]struct{}
+	n    int
+}
+
+const bitmapLimit = 1 << 31
+
+// add reports whether id was already present.
+func (s *idSet) add(id uint64) bool {
+	s.n++
+	if id < bitmapLimit {
+		w := int(id >> 6)
+		if w >= len(s.bits) {
+			nb := make([]uint64, (w+1)*2)
+			copy(nb, s.bits)
+			s.bits = nb
+		}
+		m := uint64(1) << (id & 63)
+		if s.bits[w]&m != 0 {
+			return true
+		}
+		s.bits[w] |= m
+		return false
+	}
+	if s.big == nil {
+		s.big = map[uint64]struct{}{}
+	}
+	if _, ok := s.big[id]; ok {
+		return true
+	}
+	s.big[id] = struct{}{}
+	return false
+}
+
 func runConc(b kit.Batch, r *kit.R, p params, lazy bool) {
-	var seen []uint64 // every id handed out in this process so far, sorted
+	seen := &idSet{} // every id handed out in this process so far
 	r.ForEach(b.N, func(c *kit.Case) {
 		rng := c.Rng
 		G := 1 + rng.Intn(64)
@@ -249,13 +299,14 @@ func runConc(b kit.Batch, r *kit.R, p params, lazy bool) {
 		if lazy {
 			// a new "simulation": the generator does not exist until the goroutines ask for it
 			timing.ResetIDGenerator()
-			seen = nil
+			seen = &idSet{}
 			r.Count("lazy_first_use_cases", 1)
 		}
 		got := draw(shares, stagger, true)
 
-		all := make([]uint64, 0, sum(shares))
 		interleaved := false
+		total, dups, zeros := 0, 0, 0
+		smallest, largest := ^uint64(0), uint64(0)
 		for _, ids := range got {
 			lo, hi := ^uint64(0), uint64(0)
 			for _, id := range ids {
@@ -265,60 +316,48 @@ func runConc(b kit.Batch, r *kit.R, p params, lazy bool) {
 				if id > hi {
 					hi = id
 				}
+				if id == 0 {
+					zeros++
+					if zeros == 1 {
+						c.Failf("idgen/zero-id", "generator (%s) handed out id 0 (G=%d)", p.Kind, G)
+					}
+				}
+				// exact: against every id handed out in this process so far (this case and earlier ones)
+				if seen.add(id) {
+					dups++
+					if dups == 1 {
+						c.Failf("idgen/duplicate-id", "id %d handed out twice in one process (kind=%s, G=%d, shape=%s, case draws %d ids, %d handed out before)",
+							id, p.Kind, G, shape, sum(shares), seen.n-1)
+					}
+				}
 			}
 			if len(ids) > 0 && hi-lo+1 > uint64(len(ids)) {
 				interleaved = true
 			}
-			all = append(all, ids...)
-		}
-		sort.Slice(all, func(i, j int) bool { return all[i] < all[j] })
-		if len(all) > 0 && all[0] == 0 {
-			c.Failf("idgen/zero-id", "generator (%s) handed out id 0 (G=%d)", p.Kind, G)
-		}
-		for i := 1; i < len(all); i++ {
-			if all[i] == all[i-1] {
-				c.Failf("idgen/duplicate-id", "id %d handed out twice within one case (kind=%s, G=%d, shape=%s, %d ids)", all[i], p.Kind, G, shape, len(all))
-				break
+			if lo < smallest {
+				smallest = lo
 			}
-		}
-		// against everything handed out earlier in this process
-		merged := make([]uint64, 0, len(seen)+len(all))
-		i, j := 0, 0
-		dupOld := false
-		for i < len(seen) && j < len(all) {
-			switch {
-			case seen[i] < all[j]:
-				merged = append(merged, seen[i])
-				i++
-			case seen[i] > all[j]:
-				merged = append(merged, all[j])
-				j++
-			default:
-				if !dupOld {
-					c.Failf("idgen/duplicate-id", "id %d was already handed out by an earlier case of this process (kind=%s)", all[j], p.Kind)
-					dupOld = true
-				}
-				merged = append(merged, all[j])
-				j++
+			if hi > largest {
+				largest = hi
 			}
+			total += len(ids)
 		}
-		merged = append(merged, seen[i:]...)
-		merged = append(merged, all[j:]...)
-		seen = merged
-
-		r.Count("ids_checked", int64(len(all)))
-		r.Count("ids_checked_"+p.Kind, int64(len(all)))
+		if dups > 0 {
+			r.Count("duplicate_ids", int64(dups))
+		}
+		r.Count("ids_checked", int64(total))
+		r.Count("ids_checked_"+p.Kind, int64(total))
 		r.Max("max_goroutines", int64(G))
-		r.Max("max_ids_alive_in_one_process", int64(len(seen)))
-		if len(all) > 0 && all[0] == 1 && all[len(all)-1] == uint64(len(all)) && !lazy && c.Index == 0 {
+		r.Max("max_ids_alive_in_one_process", int64(seen.n))
+		if smallest == 1 && largest == uint64(total) && dups == 0 && !lazy && c.Index == 0 {
 			r.Count("first_case_ids_are_exactly_1..N", 1)
 		}
 		if G >= 2 && interleaved {
 			r.Count("conc_cases_with_interleaving", 1)
-			c.Nontrivial(fmt.Sprintf("%s/%s/%d/%s/%d/%d", p.Scenario, p.Kind, G, shape, sum(shares), all[0]))
+			c.Nontrivial(fmt.Sprintf("%s/%s/%d/%s/%d/%d", p.Scenario, p.Kind, G, shape, sum(shares), smallest))
 		}
-		c.Sample(map[string]any{"scenario": p.Scenario, "kind": p.Kind, "goroutines": G, "shares_first8": head(shares, 8), "ids": len(all),
-			"smallest": all[0], "largest": all[len(all)-1], "interleaved": interleaved})
+		c.Sample(map[string]any{"scenario": p.Scenario, "kind": p.Kind, "goroutines": G, "shares_first8": head(shares, 8), "ids": total,
+			"smallest": smallest, "largest": largest, "interleaved": interleaved})
 	})
 }
 
@@ -368,14 +407,14 @@ func runRepro(b kit.Batch, r *kit.R, p params) {
 
 // checkSet: ids of one uninterrupted stretch are non-zero and pairwise distinct.
 func checkSet(c *kit.Case, ids []uint64, what string) {
-	s := append([]uint64(nil), ids...)
-	sort.Slice(s, func(i, j int) bool { return s[i] < s[j] })
-	if len(s) > 0 && s[0] == 0 {
-		c.Failf("idgen/zero-id", "id 0 handed out (%s)", what)
-	}
-	for i := 1; i < len(s); i++ {
-		if s[i] == s[i-1] {
-			c.Failf("idgen/duplicate-id", "id %d handed out twice (%s)", s[i], what)
+	var s idSet
+	for _, id := range ids {
+		if id == 0 {
+			c.Failf("idgen/zero-id", "id 0 handed out (%s)", what)
+			return
+		}
+		if s.add(id) {
+			c.Failf("idgen/duplicate-id", "id %d handed out twice (%s)", id, what)
 			return
 		}
 	}
@@ -427,7 +466,7 @@ func runCkpt(b kit.Batch, r *kit.R, p params) {
 		var pre []uint64
 		if concurrentPre && k > 4 {
 			for _, ids := range draw([]int{k / 4, k / 4, k / 4, k - 3*(k/4)}, false, false) {
-				pre = append(pre, ids...)
+				pre = append(pre, ids...) // copied: the arena is reused
 			}
 		} else {
 			pre = serial(k)
